@@ -341,12 +341,20 @@ func (g *gen) run(t *rapid.T, s Step) {
 	record(g.c.Dotu, o)
 }
 
+func (g *gen) keep(t *rapid.T) bool { return rapid.IntRange(0, 2).Draw(t, "keep") == 0 }
+
 func (g *gen) stale(t *rapid.T) bool { return rapid.IntRange(0, 11).Draw(t, "stale") == 0 }
 
 func (g *gen) createFile(t *rapid.T) {
 	ds := g.dirs()
+	s := g.drawCreateFile(t, ds[rapid.IntRange(0, len(ds)-1).Draw(t, "dir")])
+	s.Keep = g.keep(t)
+	g.run(t, s)
+}
+
+func (g *gen) drawCreateFile(t *rapid.T, parent [][]byte) Step {
 	s := Step{Op: "create", Kind: "file"}
-	s.Path = ds[rapid.IntRange(0, len(ds)-1).Draw(t, "dir")]
+	s.Path = parent
 	s.Name = g.drawNewName(t, "name")
 	s.Perm = drawPerm(t, "perm")
 	s.Mode = rapid.SampledFrom([]uint8{oRead, oWrite, oRdwr, oExec}).Draw(t, "mode")
@@ -359,18 +367,24 @@ func (g *gen) createFile(t *rapid.T) {
 	if len(s.Path) > 0 {
 		s.Stale = g.stale(t)
 	}
-	g.run(t, s)
+	return s
 }
 
 func (g *gen) createSpecial(t *rapid.T) {
 	ds := g.dirs()
+	s := g.drawCreateSpecial(t, ds[rapid.IntRange(0, len(ds)-1).Draw(t, "dir")])
+	s.Keep = g.keep(t)
+	g.run(t, s)
+}
+
+func (g *gen) drawCreateSpecial(t *rapid.T, parent [][]byte) Step {
 	kinds := []string{"dir"}
 	if g.c.Dotu {
 		kinds = []string{"dir", "symlink", "symlink", "link"}
 	}
 	s := Step{Op: "create"}
 	s.Kind = rapid.SampledFrom(kinds).Draw(t, "kind")
-	s.Path = ds[rapid.IntRange(0, len(ds)-1).Draw(t, "dir")]
+	s.Path = parent
 	s.Name = g.drawNewName(t, "name")
 	s.Perm = drawPerm(t, "perm")
 	switch s.Kind {
@@ -392,7 +406,7 @@ func (g *gen) createSpecial(t *rapid.T) {
 	if len(s.Path) > 0 {
 		s.Stale = g.stale(t)
 	}
-	g.run(t, s)
+	return s
 }
 
 func (g *gen) write(t *rapid.T) {
@@ -409,6 +423,7 @@ func (g *gen) write(t *rapid.T) {
 	s := Step{Op: "write", Path: o.comps}
 	s.Mode = rapid.SampledFrom([]uint8{oWrite, oRdwr}).Draw(t, "mode")
 	s.Writes = g.drawWrites(t, o.size, 3)
+	s.Keep = g.keep(t)
 	g.run(t, s)
 }
 
@@ -446,6 +461,12 @@ func (g *gen) wstatOne(t *rapid.T) {
 		t.Skip("empty tree")
 	}
 	o := objs[rapid.IntRange(0, len(objs)-1).Draw(t, "target")]
+	s := g.drawWstatOne(t, o)
+	s.Keep = g.keep(t)
+	g.run(t, s)
+}
+
+func (g *gen) drawWstatOne(t *rapid.T, o obj) Step {
 	s := Step{Op: "wstat", Path: o.comps}
 	switch rapid.SampledFrom([]string{"name", "name", "length", "mode", "mtime"}).Draw(t, "field") {
 	case "name":
@@ -469,6 +490,57 @@ func (g *gen) wstatOne(t *rapid.T) {
 		}
 	}
 	s.Stale = g.stale(t)
+	return s
+}
+
+// reuse sends a step through a fid kept alive by an earlier step: the fid of
+// a refused or accepted wstat, of a refused create (still the directory), of a
+// successful create (the new object, open) or of a write.
+func (g *gen) reuse(t *rapid.T) {
+	if len(g.m.held) == 0 {
+		t.Skip("no kept fid")
+	}
+	i := rapid.IntRange(0, len(g.m.held)-1).Draw(t, "kept")
+	h := g.m.held[i]
+	var o obj
+	found := false
+	for _, x := range g.objects() {
+		if relOf(x.comps) == relOf(h.comps) {
+			o, found = x, true
+		}
+	}
+	if !found {
+		t.Skip("kept fid's object not listed")
+	}
+	ops := []string{"wstat", "wstat", "remove"}
+	if !h.opened && o.kind == "dir" {
+		ops = append(ops, "create", "create")
+	}
+	if (!h.opened && o.follow == "file") || (h.opened && h.fB != nil && (h.mode&3 == oWrite || h.mode&3 == oRdwr)) {
+		ops = append(ops, "write", "write")
+	}
+	var s Step
+	switch rapid.SampledFrom(ops).Draw(t, "op") {
+	case "wstat":
+		s = g.drawWstatOne(t, o)
+	case "remove":
+		s = Step{Op: "remove", Path: o.comps}
+	case "create":
+		if rapid.Bool().Draw(t, "special") {
+			s = g.drawCreateSpecial(t, o.comps)
+		} else {
+			s = g.drawCreateFile(t, o.comps)
+		}
+	case "write":
+		s = Step{Op: "write", Path: o.comps}
+		s.Mode = rapid.SampledFrom([]uint8{oWrite, oRdwr}).Draw(t, "mode")
+		if h.opened {
+			s.Mode = h.mode
+		}
+		s.Writes = g.drawWrites(t, o.size, 3)
+	}
+	s.Use = i + 1
+	s.Keep = rapid.IntRange(0, 3).Draw(t, "keep") != 0
 	g.run(t, s)
 }
 
@@ -531,6 +603,7 @@ func (g *gen) wstatCombo(t *rapid.T) {
 	if n < 2 {
 		t.Skip("fewer than two fields")
 	}
+	s.Keep = g.keep(t)
 	g.run(t, s)
 }
 
@@ -582,6 +655,8 @@ func TestPropTwin(t *testing.T) {
 			"remove":        g.remove,
 			"wstatOne":      g.wstatOne,
 			"wstatCombo":    g.wstatCombo,
+			"reuse":         g.reuse,
+			"reuseAgain":    g.reuse,
 		})
 		hx.Sample("twin", sampleOf(c))
 		if len(c.Steps) > maxSteps {
